@@ -8,13 +8,14 @@ from .. import driver, explore, fakegit
 
 ID = "C20"
 LEVEL = "exploration"
-ALPHABET = ["a", "B", "7", "-", "_", "/", ":", ".", " ", "\n", "\t"]
-RULE = ("every string of length <= L (L=6 quick, 7 thorough) over the 11-symbol alphabet {a,B,7,-,_,/,:,.,space,\\n,\\t} is fed to "
+ALPHABET = ["a", "B", "7", "-", "_", "/", ":", ".", " ", "\n", "\t", "\u00e9", "\u0663"]   # + e-acute, ARABIC-INDIC DIGIT THREE
+RULE = ("every string of length <= L (L=6 quick, 7 thorough) over the 13-symbol alphabet {a,B,7,-,_,/,:,.,space,\\n,\\t,e-acute,arabic digit} is fed to "
         "is_name_valid, from_str(require_prefix=True/False) and from_relative_str and compared with a hand-written recogniser of the "
         "documented grammar; every accepted identifier is round-tripped through str(); ':name' resolution is checked through the real "
         "TaskIndex for every package path x name; output directories of all pairs of distinct (identifier, version) are compared; "
         "names with control characters go end-to-end through `cond run --check`. non-trivial = accepted by implementation or reference "
-        "(or a resolution / location case); distinct = distinct input")
+        "(or a resolution / location case); distinct = distinct input"
+        " Relative dependencies of all packages are also resolved inside ONE TaskIndex (same ':name' string listed by several COND files in one invocation, both orders).")
 ASSUMPTIONS = [
     "strings whose status the documentation leaves open (a trailing '/' before ':') are don't-care",
     "exhaustive up to the stated length over the stated alphabet only",
@@ -56,6 +57,8 @@ def ref_relative(s):
 def classify(s):
     if s.endswith("\n") and "\n" not in s[:-1]:
         return "trailing-newline"
+    if any(ord(c) > 127 for c in s):
+        return "non-ascii"
     for ch, nm in (("\n", "newline"), ("\t", "tab"), (" ", "space"), (".", "dot")):
         if ch in s:
             return nm
@@ -270,7 +273,7 @@ def _locations(res, found):
 
 def _e2e(res, found):
     """Names with a trailing newline / blank through `cond run --check` (exit status + ERROR line)."""
-    cases = [("a\n", False), ("a\n\n", False), ("a b", False), ("a\t", False), ("", False), ("a.b", False),
+    cases = [("a\n", False), ("a\n\n", False), ("a b", False), ("a\t", False), ("", False), ("a.b", False), ("half\u00bd", False), ("caf\u00e9", False),
              ("a", True), ("a-b_7", True)]
     for nm, ok in cases:
         res["evals"] += 1
